@@ -482,6 +482,87 @@ fn run_c26(batch: &str, tape: &mut Tape, rep: &mut Report) {
 
 // ───────────────────────────── C27 ─────────────────────────────
 
+/// Recovery after the crash: a new orchestrator built from the stored checkpoint, replay of the inputs the ingress
+/// context had not consumed at its snapshot, then a final coordinated snapshot of the consumer: every input exactly once.
+fn recover_and_judge(src: &str, store: Arc<dyn StateStore>, cfg: CheckpointConfig, replay_from: i64, n: i64, in_flight_across_cut: u64, cuts: (u64, u64), rep: &mut Report) {
+
+    // recovery: new orchestrator from the stored checkpoint + replay of the inputs not consumed before the barrier
+    let mgr = CheckpointManager::new(store.clone(), cfg.clone()).expect("manager");
+    let cp = match mgr.recover() {
+        Ok(Some(c)) => c,
+        other => {
+            rep.violate("completed-checkpoint-not-recoverable", "-", format!("recover() = {:?}", other.map(|o| o.map(|c| c.id))));
+            return;
+        }
+    };
+    drop(mgr);
+    // the snapshots assembled into the completed checkpoint must be the ones each context took at the barrier of
+    // THIS checkpoint: their own processed-event counters say how much each had consumed when it took its snapshot
+    for (ctx, want) in [("c1", cuts.0), ("c2", cuts.1)] {
+        if let Some(ec) = cp.context_states.get(ctx) {
+            if ec.events_processed != want {
+                rep.violate("checkpoint-holds-a-snapshot-from-another-barrier", ctx, format!("completed checkpoint {}: the snapshot of {} was taken after {} events, but {} had consumed {} events when it handled the barrier of this checkpoint", cp.id, ctx, ec.events_processed, ctx, want));
+            }
+        } else {
+            rep.violate("checkpoint-holds-a-snapshot-from-another-barrier", "missing", format!("completed checkpoint {} has no snapshot of {}", cp.id, ctx));
+        }
+    }
+    reset_sched();
+    let store2: Arc<dyn StateStore> = Arc::new(MemoryStore::new());
+    let mut o2 = Orch::build(src, 1000, Some((cfg.clone(), store2.clone())), Some(&cp));
+    for i in replay_from..n {
+        assert!(o2.inject(raw(i)));
+    }
+    rep.log(format!("recovered from checkpoint {}; replaying inputs {}..{}", cp.id, replay_from, n));
+    // run to quiescence (schedule irrelevant here: queues are large), then snapshot B through a second coordinated checkpoint
+    let mut guard = 0;
+    while let Some(c) = o2.runnable().last().cloned() {
+        o2.step(&c, rep);
+        guard += 1;
+        if guard > 5000 {
+            break;
+        }
+    }
+    o2.o.as_mut().unwrap().trigger_checkpoint();
+    for c in o2.names.clone() {
+        o2.q.get_mut(&c).unwrap().push_back(Msg::Barrier);
+    }
+    while let Some(c) = o2.runnable().last().cloned() {
+        o2.step(&c, rep);
+    }
+    let done = o2.o.as_mut().unwrap().try_complete_checkpoint();
+    o2.shutdown();
+    if !matches!(done, Ok(true)) {
+        rep.violate("harness-no-checkpoint", "final", "final snapshot did not complete");
+        return;
+    }
+    let fin = CheckpointManager::new(store2, cfg).expect("manager").recover().ok().flatten();
+    let Some(fin) = fin else {
+        rep.violate("harness-no-checkpoint", "final", "final snapshot missing");
+        return;
+    };
+    let mut counts: BTreeMap<i64, u32> = BTreeMap::new();
+    if let Some(b) = fin.context_states.get("c2") {
+        for (_, w) in &b.window_states {
+            for se in &w.events {
+                let ev: Event = se.clone().into();
+                *counts.entry(ev.get_int("seq").unwrap_or(-1)).or_insert(0) += 1;
+            }
+        }
+    }
+    let lost: Vec<i64> = (0..n).filter(|i| !counts.contains_key(i)).collect();
+    let dup: Vec<i64> = counts.iter().filter(|(_, c)| **c > 1).map(|(k, _)| *k).collect();
+    rep.log(format!("consumer state after recovery + replay: {} distinct events, lost {:?}, duplicated {:?}", counts.len(), lost, dup));
+    if !lost.is_empty() {
+        let sig = if in_flight_across_cut > 0 { "in-flight-across-cut" } else { "nothing-in-flight" };
+        rep.violate("event-lost-across-checkpoint", sig, format!("events {:?} passed from c1 to c2 are in neither the restored consumer state nor the replay ({} were in flight when c2 took its snapshot)", lost, in_flight_across_cut));
+    }
+    if !dup.is_empty() {
+        rep.violate("event-duplicated-across-checkpoint", "-", format!("events {:?} reached the consumer twice", dup));
+    }
+}
+
+
 fn run_c27(batch: &str, tape: &mut Tape, rep: &mut Report) {
     // chain Raw -> A(c1) -> B(c2): B buffers everything it consumes in a large count window,
     // so its snapshot is exactly the set of cross-context events whose effect it contains.
@@ -593,71 +674,131 @@ fn run_c27(batch: &str, tape: &mut Tape, rep: &mut Report) {
     // crash: the process dies right after the checkpoint was reported complete
     rep.fault("crash-after-completed-checkpoint");
     o.shutdown();
+    recover_and_judge(src, store, cfg, replay_from, n, in_flight_across_cut, (a_consumed_before_barrier, b_consumed_before_barrier), rep);
+    rep.nontrivial = replay_from > 0 && replay_from < n;
+}
 
-    // recovery: new orchestrator from the stored checkpoint + replay of the inputs not consumed before the barrier
-    let mgr = CheckpointManager::new(store.clone(), cfg.clone()).expect("manager");
-    let cp = match mgr.recover() {
-        Ok(Some(c)) => c,
-        other => {
-            rep.violate("completed-checkpoint-not-recoverable", "-", format!("recover() = {:?}", other.map(|o| o.map(|c| c.id))));
+
+/// Batch `rejected-barriers`: small queues, checkpoints triggered at any time — also while a context queue is
+/// full, so that a barrier is rejected — and triggered again later. Whatever checkpoint is eventually reported
+/// complete must be a consistent cut. Which queues actually received a barrier is read from the real channels
+/// (H1b accessor), not assumed.
+fn run_c27_rejected(tape: &mut Tape, rep: &mut Report) {
+    let cap = tape.range(1, 3) as usize;
+    let n = tape.range(6, 30) as i64;
+    let src = "context c1\ncontext c2\nstream A = Raw\n  .context(c1)\n  .emit(seq: seq, v: v)\nstream B = A\n  .context(c2)\n  .window(100000)\n  .aggregate(n: count())\n  .emit(n: n)\n";
+    rep.config = format!("channel_capacity={} inputs={} batch=rejected-barriers", cap, n);
+    rep.log(format!("config {}", rep.config));
+    let store: Arc<dyn StateStore> = Arc::new(MemoryStore::new());
+    let cfg = CheckpointConfig { max_checkpoints: 3, ..Default::default() };
+    reset_sched();
+    let mut o = Orch::build(src, cap, Some((cfg.clone(), store.clone())), None);
+    let lens = |o: &Orch| -> BTreeMap<String, usize> { o.o.as_ref().unwrap().verif_queue_lens().into_iter().collect() };
+    let (mut next, mut triggers, mut rejected) = (0i64, 0u64, 0u64);
+    let (mut a_consumed, mut b_consumed) = (0u64, 0u64);
+    let (mut a_cut, mut b_cut): (Option<u64>, Option<u64>) = (None, None);
+    let mut completed = false;
+    let mut guard = 0;
+    while !completed {
+        guard += 1;
+        if guard > 4000 {
+            rep.violate("harness-no-quiescence", "-", "run did not end");
+            o.shutdown();
             return;
         }
-    };
-    drop(mgr);
-    reset_sched();
-    let store2: Arc<dyn StateStore> = Arc::new(MemoryStore::new());
-    let mut o2 = Orch::build(src, 1000, Some((cfg.clone(), store2.clone())), Some(&cp));
-    for i in replay_from..n {
-        assert!(o2.inject(raw(i)));
-    }
-    rep.log(format!("recovered from checkpoint {}; replaying inputs {}..{}", cp.id, replay_from, n));
-    // run to quiescence (schedule irrelevant here: queues are large), then snapshot B through a second coordinated checkpoint
-    let mut guard = 0;
-    while let Some(c) = o2.runnable().last().cloned() {
-        o2.step(&c, rep);
-        guard += 1;
-        if guard > 5000 {
-            break;
+        // the queue model must agree with the real channels at every scheduling point
+        let real = lens(&o);
+        for c in &o.names {
+            if real.get(c).copied().unwrap_or(0) != o.q[c].len() {
+                rep.violate("harness-queue-model-mismatch", "-", format!("context {}: channel holds {} messages, model {:?}", c, real.get(c).copied().unwrap_or(0), o.q[c]));
+                o.shutdown();
+                return;
+            }
         }
-    }
-    o2.o.as_mut().unwrap().trigger_checkpoint();
-    for c in o2.names.clone() {
-        o2.q.get_mut(&c).unwrap().push_back(Msg::Barrier);
-    }
-    while let Some(c) = o2.runnable().last().cloned() {
-        o2.step(&c, rep);
-    }
-    let done = o2.o.as_mut().unwrap().try_complete_checkpoint();
-    o2.shutdown();
-    if !matches!(done, Ok(true)) {
-        rep.violate("harness-no-checkpoint", "final", "final snapshot did not complete");
-        return;
-    }
-    let fin = CheckpointManager::new(store2, cfg).expect("manager").recover().ok().flatten();
-    let Some(fin) = fin else {
-        rep.violate("harness-no-checkpoint", "final", "final snapshot missing");
-        return;
-    };
-    let mut counts: BTreeMap<i64, u32> = BTreeMap::new();
-    if let Some(b) = fin.context_states.get("c2") {
-        for (_, w) in &b.window_states {
-            for se in &w.events {
-                let ev: Event = se.clone().into();
-                *counts.entry(ev.get_int("seq").unwrap_or(-1)).or_insert(0) += 1;
+        // a forward from c1 must find room in c2's queue (queue-full drops are C26's subject, not this property's)
+        let runnable: Vec<String> = o.runnable().into_iter().filter(|c| c != "c1" || o.q["c2"].len() < o.cap).collect();
+        let idle = runnable.is_empty() && next >= n;
+        let want_trigger = triggers < 5 && next >= 1 && (tape.chance(1, 6) || (idle && o.runnable().is_empty()));
+        if want_trigger {
+            let before = lens(&o);
+            o.o.as_mut().unwrap().trigger_checkpoint();
+            let after = lens(&o);
+            triggers += 1;
+            let mut got = vec![];
+            for c in o.names.clone() {
+                if after.get(&c).copied().unwrap_or(0) > before.get(&c).copied().unwrap_or(0) {
+                    o.q.get_mut(&c).unwrap().push_back(Msg::Barrier);
+                    got.push(c);
+                }
+            }
+            let full: Vec<&String> = o.names.iter().filter(|c| before.get(*c).copied().unwrap_or(0) >= o.cap).collect();
+            // partial delivery: some context got the barrier and another one, whose queue was full, did not
+            if !got.is_empty() && got.len() < o.names.len() {
+                rejected += 1;
+                rep.fault("barrier-rejected-by-a-full-queue");
+            }
+            rep.fault("barrier-injected");
+            rep.log(format!("trigger_checkpoint #{} after {} inputs: barrier queued for {:?} (full before: {:?}); queues={:?}", triggers, next, got, full, o.q.iter().map(|(k, v)| (k.clone(), v.len())).collect::<Vec<_>>()));
+        } else if next < n && (runnable.is_empty() || tape.chance(1, 2)) {
+            if o.inject(raw(next)) {
+                rep.log(format!("inject Raw seq={}", next));
+                next += 1;
+                rep.ops += 1;
+            } else if runnable.is_empty() {
+                // ingress full and nobody can run (c2 full and stalled by the rule above cannot happen: c2 is always runnable when non-empty)
+                rep.violate("harness-no-quiescence", "-", "ingress full and nothing runnable");
+                o.shutdown();
+                return;
+            }
+        } else if let Some(c) = if runnable.is_empty() { None } else { Some(runnable[tape.draw(runnable.len() as u64) as usize].clone()) } {
+            let m = o.step(&c, rep);
+            let _ = o.drain_out();
+            rep.log(format!("step {} dequeued {:?} queues={:?}", c, m, o.q.iter().map(|(k, v)| (k.clone(), v.len())).collect::<Vec<_>>()));
+            match (c.as_str(), &m) {
+                ("c1", Msg::Ev(_)) => a_consumed += 1,
+                ("c2", Msg::Ev(_)) => b_consumed += 1,
+                ("c1", Msg::Barrier) => a_cut = Some(a_consumed),
+                ("c2", Msg::Barrier) => b_cut = Some(b_consumed),
+                _ => {}
+            }
+        } else if idle && triggers >= 5 {
+            break;
+        } else if idle {
+            continue;
+        }
+        // the owner of the orchestrator polls for completion on its own schedule (not after every step)
+        if !idle && !tape.chance(1, 3) {
+            continue;
+        }
+        match o.o.as_mut().unwrap().try_complete_checkpoint() {
+            Ok(true) => completed = true,
+            Ok(false) => {}
+            Err(e) => {
+                rep.violate("checkpoint-store-error", "-", format!("{}", e));
+                o.shutdown();
+                return;
             }
         }
     }
-    let lost: Vec<i64> = (0..n).filter(|i| !counts.contains_key(i)).collect();
-    let dup: Vec<i64> = counts.iter().filter(|(_, c)| **c > 1).map(|(k, _)| *k).collect();
-    rep.log(format!("consumer state after recovery + replay: {} distinct events, lost {:?}, duplicated {:?}", counts.len(), lost, dup));
-    if !lost.is_empty() {
-        let sig = if in_flight_across_cut > 0 { "in-flight-across-cut" } else { "nothing-in-flight" };
-        rep.violate("event-lost-across-checkpoint", sig, format!("events {:?} passed from c1 to c2 are in neither the restored consumer state nor the replay ({} were in flight when c2 took its snapshot)", lost, in_flight_across_cut));
+    if !completed {
+        // on this tree a rejected barrier leaves the checkpoint pending for ever (later triggers are skipped): a
+        // liveness problem outside this property; counted, not judged
+        rep.probe("no-checkpoint-ever-completed-after-a-rejected-barrier");
+        rep.log(format!("no checkpoint completed ({} triggers, {} with a rejected barrier)", triggers, rejected));
+        o.shutdown();
+        rep.nontrivial = false;
+        return;
     }
-    if !dup.is_empty() {
-        rep.violate("event-duplicated-across-checkpoint", "-", format!("events {:?} reached the consumer twice", dup));
-    }
-    rep.nontrivial = replay_from > 0 && replay_from < n;
+    // the cut of the completed checkpoint as the harness can know it: the last barrier each context processed
+    let (a_cut, b_cut) = (a_cut.unwrap_or(0), b_cut.unwrap_or(0));
+    let in_flight = a_cut.saturating_sub(b_cut);
+    rep.log(format!("checkpoint complete after {} triggers ({} with a rejected barrier): c1 had consumed {} inputs at its last barrier, c2 {} forwarded events at its last barrier => {} in flight across the cut", triggers, rejected, a_cut, b_cut, in_flight));
+    if in_flight > 0 { rep.probe("event-in-flight-across-the-cut"); }
+    if rejected > 0 { rep.probe("checkpoint-completed-after-a-rejected-barrier"); }
+    rep.fault("crash-after-completed-checkpoint");
+    o.shutdown();
+    recover_and_judge(src, store, cfg, a_cut as i64, n, in_flight, (a_cut, b_cut), rep);
+    rep.nontrivial = a_cut > 0 && (a_cut as i64) < n;
 }
 
 struct W3;
@@ -691,6 +832,7 @@ impl World for W3 {
                 batches: vec![
                     Batch { name: "schedules", quick: 1_200, thorough: 50_000, faulty: true },
                     Batch { name: "lockstep", quick: 300, thorough: 10_000, faulty: true },
+                    Batch { name: "rejected-barriers", quick: 4_000, thorough: 120_000, faulty: true },
                 ],
                 rule: "one run = chain Raw -> A(c1) -> B(c2) where B buffers everything it consumes (its snapshot is the set of consumed cross-context events); 4-30 inputs, barrier injection (trigger_checkpoint) after a tape-chosen number of inputs, tape-chosen schedule of producer and contexts until try_complete_checkpoint reports completion, then crash; recovery = new orchestrator built from the stored checkpoint + replay of exactly the inputs that sat behind the barrier in the ingress queue; a final coordinated snapshot of B is compared with the input set: every event exactly once. The lockstep batch always drains downstream first, so nothing is ever in flight across the cut. Non-trivial = the barrier fell strictly inside the input sequence; distinct = distinct decoded-trace hash.",
                 real,
@@ -703,6 +845,7 @@ impl World for W3 {
         install_hooks();
         match prop {
             "C26" => run_c26(batch, tape, rep),
+            "C27" if batch == "rejected-barriers" => run_c27_rejected(tape, rep),
             "C27" => run_c27(batch, tape, rep),
             _ => panic!("vsim harness: unknown property {}", prop),
         }
